@@ -253,6 +253,8 @@ pub struct Gen<'a> {
     split_calls: bool,
     /// rarely seen but legal extractor output (see the items marked `exotic`)
     exotic: bool,
+    /// address of the shared helper `h(p, n) { p[n] = 0; }` (0 = none in this program)
+    helper: u64,
 }
 
 impl<'a> Gen<'a> {
@@ -713,7 +715,7 @@ enum CallTarget {
 pub const GADGETS: &[&str] = &[
     "dangerous_call", "ioctl", "setuid_system", "chroot_only", "access_open", "umask_chmod", "malloc_sizeof_ptr",
     "rand_no_srand", "mult_malloc", "malloc_deref", "use_after_free", "double_free", "heap_overflow",
-    "huge_malloc", "huge_stack", "printf_nonconst", "unchecked_return", "time_srand", "system_sprintf", "stack_overflow_store",
+    "huge_malloc", "huge_stack", "printf_nonconst", "unchecked_return", "time_srand", "system_sprintf", "stack_overflow_store", "call_helper", "call_helper",
 ];
 
 impl<'a> Gen<'a> {
@@ -819,6 +821,56 @@ impl<'a> Gen<'a> {
                 // sprintf(buf, "%s %d", user, n); system(buf)
                 b = call!(b, "sprintf", &[ArgV::StackBuf(-0x60), ArgV::Const(self.rodata + 0x10), ArgV::Keep]);
                 b = call!(b, "system", &[ArgV::StackBuf(-0x60)]);
+            }
+            "call_helper" if self.helper != 0 && !p.stack_args => {
+                // the same helper is called from several sites with different constant indices
+                // (interprocedural parameter substitution has to join the values of all call sites)
+                let heap = self.r.chance(60);
+                if heap {
+                    let size = *self.r.pick(&[0x10u64, 0x18, 0x20]);
+                    b = call!(b, alloc, &[ArgV::Const(size), ArgV::Const(0xcc0)]);
+                    self.i_mov_reg(&mut b, sv, ret);
+                }
+                let n = self.r.range(2, 5);
+                for k in 0..n {
+                    let idx = if self.r.chance(80) { 8 * k } else { self.r.below(64) };
+                    let buf = if heap { ArgV::Reg(sv) } else { ArgV::StackBuf(-0x40) };
+                    let args = [buf, ArgV::Const(idx)];
+                    self.setup_args(&mut b, &args);
+                    let next = slots();
+                    let helper = self.helper;
+                    b = match self.end_with_call(b, CallTarget::Func(helper), next, out) {
+                        Some(nb) => nb,
+                        None => return None,
+                    };
+                }
+                if self.r.chance(60) {
+                    // one more call site passes a bounds-checked variable index:
+                    //   if (i <= 0x10) helper(buf, i);
+                    let idx_reg = p.callee_saved.iter().copied().find(|r| *r != sv && *r != p.sp && *r != p.fp).unwrap_or(p.killed[0]);
+                    let call_blk = slots();
+                    let skip_blk = slots();
+                    b.next_insn();
+                    let cond = self.u(1);
+                    let bound = *self.r.pick(&[0x10u64, 0x18, 0x20, 7]);
+                    b.def(Some(cond.clone()), expr(*self.r.pick(&["INT_LESSEQUAL", "INT_LESS"]), &[reg(idx_reg, p.ptr), cst(bound, p.ptr)]));
+                    let j0 = b.jmp_tid();
+                    let j1 = b.jmp_tid();
+                    b.jmps.push(json!({"tid": j0, "term": {"mnemonic": "CBRANCH", "goto": {"Direct": tid(format!("blk_{}", hex(call_blk)), &hex(call_blk))}, "condition": cond}}));
+                    b.jmps.push(json!({"tid": j1, "term": {"mnemonic": "BRANCH", "goto": {"Direct": tid(format!("blk_{}", hex(skip_blk)), &hex(skip_blk))}}}));
+                    out.push(b);
+                    self.note_addr(call_blk);
+                    let mut cb = Blk::new(call_blk, None);
+                    let buf = if heap { ArgV::Reg(sv) } else { ArgV::StackBuf(-0x40) };
+                    let args = [buf, ArgV::Reg(idx_reg)];
+                    self.setup_args(&mut cb, &args);
+                    let helper = self.helper;
+                    match self.end_with_call(cb, CallTarget::Func(helper), skip_blk, out) {
+                        Some(nb) => b = nb,
+                        None => return None,
+                    }
+                    self.note_addr(skip_blk);
+                }
             }
             "stack_overflow_store" => {
                 // write beyond the own frame into the caller's frame region
@@ -1247,7 +1299,11 @@ pub fn generate(seed: u64) -> Workload {
         long_blocks: r.chance(30),
         split_calls: r.chance(40),
         exotic: r.chance(30),
+        helper: 0,
     };
+    if !p.stack_args && r.chance(35) {
+        g.helper = text + 0xa00;
+    }
     // distribute gadgets over functions
     let ngad = *r.pick(&[0u64, 2, 4, 6, 8, 10]);
     let mut per_func: Vec<Vec<&str>> = vec![Vec::new(); nfuncs];
@@ -1261,6 +1317,22 @@ pub fn generate(seed: u64) -> Workload {
         g.meta.blocks += nb;
         g.meta.defs += nd;
         subs.push(s);
+    }
+    if g.helper != 0 {
+        // helper(p, n): p[n] = 0; return p[0]
+        let a = g.helper;
+        let mut b = Blk::new(a, None);
+        let t = g.u(p.ptr);
+        b.def(Some(t.clone()), expr("INT_ADD", &[reg(p.params[0], p.ptr), reg(p.params[1], p.ptr)]));
+        b.def(None, expr("STORE", &[cst(SPACE_ID, 4), t, cst(0, 1)]));
+        let t2 = g.u(1);
+        b.next_insn();
+        b.def(Some(t2.clone()), expr("LOAD", &[cst(SPACE_ID, 4), reg(p.params[0], p.ptr)]));
+        b.def(Some(reg(p.ret, p.ptr)), expr("INT_ZEXT", &[t2]));
+        let mut outb = Vec::new();
+        g.end_with_return(b, &mut outb);
+        g.note_addr(a);
+        subs.push(json!({"tid": tid(format!("sub_{}", hex(a)), &hex(a)), "term": {"name": "helper_set", "blocks": outb.iter().map(|b| b.to_json()).collect::<Vec<_>>(), "calling_convention": p.cconv}}));
     }
     if g.exotic {
         // exotic: a function without any block (e.g. a body the disassembler could not recover)
